@@ -202,6 +202,31 @@ func genC19(t *rapid.T) C19Case {
 			b.Off = rapid.SampledFrom([]int64{0, 3600, -18000, 19800, 50400, -43200}).Draw(t, "offb")
 		}
 		c.A, c.B = m.FormatCivil(a, layout), m.FormatCivil(b, layout)
+		// texts that are valid but not what formatting would print: a fractional second after
+		// the seconds field, a zero offset written +00:00 / -00:00
+		noncanon := func(s string, civ m.Civil, label string) string {
+			switch rapid.IntRange(0, 5).Draw(t, label) {
+			case 0:
+				if layoutHasSeconds(layout) {
+					fr := rapid.SampledFrom([]string{".5", ",25", ".123", ".999999999", ".000000001", ".123456789123"}).Draw(t, label+"_frac")
+					sec := m.FormatCivil(civ, m.LayoutDatetime)[17:19]
+					switch layout {
+					case m.LayoutDatetime:
+						return s + fr
+					case m.LayoutRFC3339:
+						return s[:19] + fr + s[19:]
+					case m.LayoutSMH:
+						return s[:11] + sec + fr + s[13:]
+					}
+				}
+			case 1:
+				if layout == m.LayoutRFC3339 && strings.HasSuffix(s, "Z") {
+					return s[:len(s)-1] + rapid.SampledFrom([]string{"+00:00", "-00:00"}).Draw(t, label+"_zero")
+				}
+			}
+			return s
+		}
+		c.A, c.B = noncanon(c.A, a, "noncanon_a"), noncanon(c.B, b, "noncanon_b")
 		return c
 	default:
 		if rapid.Bool().Draw(t, "hugecomp") {
@@ -417,6 +442,33 @@ func sweepC19(tier string, shard, shards int, emit func(C19Case)) {
 	}
 	for _, e := range rejectExprs {
 		emit(C19Case{Kind: "reject", Expr: e})
+	}
+	// boundary dates against each other, in every layout that can write them
+	bounds := []m.Civil{{Y: 1, M: 1, D: 1}, {Y: 1, M: 1, D: 1, S: 1}, {Y: 1, M: 1, D: 2}, {Y: 1969, M: 12, D: 31, H: 23, Mi: 59, S: 59}, {Y: 1970, M: 1, D: 1},
+		{Y: 1970, M: 1, D: 1, S: 1}, {Y: 2000, M: 2, D: 29}, {Y: 2038, M: 1, D: 19, H: 3, Mi: 14, S: 8}, {Y: 9999, M: 12, D: 31, H: 23, Mi: 59, S: 59}, {Y: 1, M: 1, D: 1, H: 8, Off: 8 * 3600}}
+	for _, layout := range m.KnownLayouts {
+		ops := []string{"date", "to_datetime", "t_time"}
+		for i, a := range bounds {
+			for j, b := range bounds {
+				if !layoutHasTime(layout) {
+					a.H, a.Mi, a.S, b.H, b.Mi, b.S = 0, 0, 0, 0, 0, 0
+				}
+				if !layoutHasSeconds(layout) {
+					a.S, b.S = 0, 0
+				}
+				if layout != m.LayoutRFC3339 {
+					if a.Off != 0 || b.Off != 0 {
+						continue
+					}
+				}
+				emit(C19Case{Kind: "date", A: m.FormatCivil(a, layout), B: m.FormatCivil(b, layout), Layout: layout, OpA: ops[i%3], OpB: ops[j%3]})
+			}
+		}
+	}
+	for i, a := range bounds[:9] {
+		a.H, a.Mi, a.S = 0, 0, 0
+		emit(C19Case{Kind: "date", A: m.FormatCivil(a, m.LayoutDate), B: m.FormatCivil(bounds[(i+1)%9], m.LayoutDate)[:10], OpA: "date", OpB: "td_date"})
+		emit(C19Case{Kind: "date", A: m.FormatCivil(bounds[i], m.LayoutDatetime), B: m.FormatCivil(bounds[(i+2)%9], m.LayoutDatetime), OpA: "datetime", OpB: "td_time"})
 	}
 	// every ordered pair over a small grid of 1..4-component versions at every valid length
 	comps := []string{"0", "1", "9999"}
